@@ -3,6 +3,7 @@ import GlueVerif.Model.Coords
 import GlueVerif.Model.C16FRB
 import GlueVerif.Model.C16Links
 import GlueVerif.Model.C16Image
+import GlueVerif.Model.C16Args
 /-! Line-protocol driver for C16 (fixed-resolution buffer, its caches, image layer states). -/
 open GlueVerif GlueVerif.Sexp GlueVerif.FRB
 
@@ -146,6 +147,27 @@ def op? : Sexp → Option Impl.Op
   | .list [.atom "setc", ds, c, vals] => do some (.setComp (← ds.toNat?) (← c.toNat?) (← vals.toInts?))
   | e => (req? e).map .req
 
+/-- Histories with argument object identity (round 3): requests name the bounds list they pass
+(`reqo … oid …`; a `req` with inline bounds passes a list built for that call), lists are edited in
+place between requests, returned buffers too. -/
+def aop? : Sexp → Option Args.AOp
+  | .list [.atom "reqo", d, oid, t, what, bc, cid] => do
+    some (.req ⟨← d.toNat?, .obj (← oid.toNat?), ← t.toNat?, ← target? what, ← bc.toBool?, ← optNat? cid⟩)
+  | .list [.atom "asg", oid, bs] => do some (.assign (← oid.toNat?) (← (← bs.toList?).mapM bound?))
+  | .list [.atom "set", oid, i, b] => do some (.set (← oid.toNat?) (← i.toNat?) (← bound? b))
+  | .list [.atom "push", oid, b] => do some (.push (← oid.toNat?) (← bound? b))
+  | .list [.atom "pop", oid] => do some (.pop (← oid.toNat?))
+  | .list [.atom "edbuf", k, v] => do some (.editBuf (← k.toNat?) (← v.toInt?))
+  | .list [.atom "edit", sid, e] => do some (.editState (← sid.toNat?) (← sexpr? e))
+  | .list [.atom "setc", ds, c, vals] => do some (.setComp (← ds.toNat?) (← c.toNat?) (← vals.toInts?))
+  | e => do
+    let r ← req? e
+    some (.req ⟨r.data, .fresh r.bounds, r.target, r.what, r.broadcast, r.cacheId⟩)
+
+def isArgSexp : Sexp → Bool
+  | .list (.atom a :: _) => a == "reqo" || a == "asg" || a == "set" || a == "push" || a == "pop" || a == "edbuf"
+  | _ => false
+
 /-! ### families -/
 
 def tieCount (w : World) (r : Req) : Nat :=
@@ -212,6 +234,56 @@ def stepSeq (wi : WorldIn) (ops : List Impl.Op) (pyout : Sexp) : String :=
   let kind := if ops.any (fun o => match o with | .editState .. => true | _ => false) then "edit-"
     else if ops.any (fun o => match o with | .setComp .. => true | _ => false) then "setc-" else ""
   driverResult (.list (impl.map answerToSexp)) ok implok p (kind ++ "hits" ++ toString (min hits 4))
+
+/-- Walk an object-level history: per request the world in force, the request **by value at that
+moment** (the current contents of its bounds list), whether the data changed before it. -/
+def walkA : Args.AState → Bool → List Args.AOp → List (World × Req × Bool)
+  | _, _, [] => []
+  | st, ch, op :: ops =>
+    let st' := (Args.stepA Args.Policy.coded false st op).2
+    match op with
+    | .req r => (st.world, r.toReq st.lists, ch) :: walkA st' ch ops
+    | .setComp .. => walkA st' true ops
+    | _ => walkA st' ch ops
+
+def countHitsA : Args.AState → List Args.AOp → Nat
+  | _, [] => 0
+  | st, op :: ops =>
+    let hit := match op with
+      | .req r =>
+        let rq := r.toReq st.lists
+        match rq.cacheId with
+        | some id => boundsValid rq.bounds && (Args.arrayHitA st.lists st.caches id rq).isSome
+        | none => false
+      | _ => false
+    (if hit then 1 else 0) + countHitsA (Args.stepA Args.Policy.coded true st op).2 ops
+
+/-- `seq` with argument identity: the model is `runArgs Policy.coded true` (what the code stores:
+fresh lists, private array copies); every python answer is judged by the Spec of the uncached request
+on the CURRENT contents of its arguments. -/
+def stepSeqA (wi : WorldIn) (ops : List Args.AOp) (pyout : Sexp) : String :=
+  let w := wi.w
+  let st0 := Args.AState.init w (fun _ => [])
+  let impl := Args.runArgs Args.Policy.coded true st0 ops
+  let reqs := walkA st0 false ops
+  let judged (t : World × Req × Bool) : Bool := !(t.2.2 && t.2.1.cacheId.isSome)
+  let verdict (outs : List (Option (Except Err Arr))) : Bool :=
+    outs.length == reqs.length && (reqs.zip outs).all fun p =>
+      !judged p.1 || (match p.2 with
+        | some a => Spec.acceptsAnswer p.1.1 p.1.2.1 a
+        | none => false)
+  let ok := match pyout.toList? with
+    | some outs => verdict (outs.map sexpToAnswer?)
+    | none => false
+  let implok := verdict (impl.map some)
+  let p := wi.wfOk && ops.all Args.AOp.isArgOp
+  let hits := countHitsA st0 ops
+  let kind :=
+    (if ops.any (fun o => match o with | .editBuf .. => true | _ => false) then "buf" else "") ++
+    (if ops.any (fun o => match o with | .set .. => true | _ => false) then "set" else "") ++
+    (if ops.any (fun o => match o with | .push .. => true | .pop .. => true | _ => false) then "len" else "") ++
+    (if ops.any (fun o => match o with | .assign .. => true | _ => false) then "asg" else "")
+  driverResult (.list (impl.map answerToSexp)) ok implok p ("arg-" ++ kind ++ "-hits" ++ toString (min hits 4))
 
 /-! ### image layer states -/
 
@@ -281,6 +353,12 @@ def step (line : String) : String :=
     | none, _ => bad "frb-world"
     | _, none => bad "frb-req"
   | some (.list [.atom "seq", .list [we, ops], pyout]) =>
+    if (ops.toList?.getD []).any isArgSexp then
+      match world? we, (ops.toList?.bind (·.mapM aop?)) with
+      | some wi, some os => stepSeqA wi os pyout
+      | none, _ => bad "seq-world"
+      | _, none => bad "seq-aops"
+    else
     match world? we, (ops.toList?.bind (·.mapM op?)) with
     | some wi, some os => stepSeq wi os pyout
     | none, _ => bad "seq-world"
